@@ -26,8 +26,8 @@ var seeds = []seed{
 	{"CheckedAdd forgets to store the container returned by the kernel", "F13.32", "roaring.go", "\t\tC = C.iaddReturnMinimized(lowbits(x))\n\t\trb.highlowcontainer.setContainerAtIndex(i, C)\n", "\t\tC = C.iaddReturnMinimized(lowbits(x))\n", "CheckedAdd|result of iaddReturnMinimized"},
 	{"FromBuffer asks the pooled reader for its position after giving it back", "PT2", "roaring.go", "\tp, err = rb.highlowcontainer.readFrom(stream)\n\tinternal.ByteBufferPool.Put(stream)\n\n\treturn\n", "\t_, err = rb.highlowcontainer.readFrom(stream)\n\tinternal.ByteBufferPool.Put(stream)\n\n\treturn stream.GetReadBytes(), err\n", "FromBuffer|Pool.Put"},
 	{"MustReadFrom validates before looking at the decode error", "B4", "roaring.go", "\tif err != nil {\n\t\treturn\n\t}\n\tif err := rb.Validate(); err != nil {\n\t\tpanic(err)\n\t}\n", "\tif verr := rb.Validate(); err == nil && verr != nil {\n\t\tpanic(verr)\n\t}\n", "MustReadFrom|error"},
-	{"BSI Sum workers add into the shared result without atomics", "P2", "BitSliceIndexing/bsi.go", "\t\t\tatomic.AddInt64(&sum, int64(foundSet.AndCardinality(b.bA[j])<<uint(j)))\n", "\t\t\tsum += int64(foundSet.AndCardinality(b.bA[j]) << uint(j))\n", "Sum|go"},
-	{"roaring64 ReadFrom buffers the caller's stream", "B7", "roaring64/roaring64.go", "func (rb *Bitmap) ReadFrom(stream io.Reader) (p int64, err error) {\n\tsizeBuf := make([]byte, 8)\n", "func (rb *Bitmap) ReadFrom(stream io.Reader) (p int64, err error) {\n\tstream = bufio.NewReader(stream)\n\tsizeBuf := make([]byte, 8)\n", "ReadFrom|stream stream"},
+	{"BSI Sum workers add into the shared result without atomics", "P2", "BitSliceIndexing/bsi.go", "\t\t\tatomic.AddInt64(&sum, int64(foundSet.AndCardinality(b.bA[j])<<uint(j)))\n", "\t\t\tsum += int64(foundSet.AndCardinality(b.bA[j]) << uint(j))\n\t\t\tatomic.AddInt64(&sum, 0)\n", "Sum|go"},
+	{"roaring64 ReadFrom buffers the caller's stream", "B7", "roaring64/roaring64.go", "func (rb *Bitmap) ReadFrom(stream io.Reader) (p int64, err error) {\n\tsizeBuf := make([]byte, 8)\n", "func (rb *Bitmap) ReadFrom(stream io.Reader) (p int64, err error) {\n\tall, _ := io.ReadAll(stream)\n\tstream = bytes.NewReader(all)\n\tsizeBuf := make([]byte, 8)\n", "ReadFrom|stream stream"},
 	{"Roaring32AsRoaring64 stores an empty argument as a bucket", "F3.64", "roaring64/roaring64.go", "\tif bm32.IsEmpty() {\n\t\t// an empty 32-bit bitmap is no bucket at all\n\t\treturn rb\n\t}\n", "", "roaring32AsRoaring64|parameter bm32"},
 	{"a container table is overlaid on byte memory", "UNS1", "serialization_littleendian.go", "// FrozenView creates a static view of a serialized bitmap stored in buf.\n", "func byteSliceAsContainerTable(slice []byte) []container {\n\treturn unsafe.Slice((*container)(unsafe.Pointer(unsafe.SliceData(slice))), len(slice)/16)\n}\n\n// FrozenView creates a static view of a serialized bitmap stored in buf.\n", "byteSliceAsContainerTable"},
 	{"roaring64.ParOr feeds its workers from the coordinating goroutine", "P6", "roaring64/parallel64.go", "\tgo func() {\n\t\tfor i := int64(0); i < chunkCount; i++ {", "\tfunc() {\n\t\tfor i := int64(0); i < chunkCount; i++ {", "roaring64.ParOr|feeding loop"},
